@@ -212,6 +212,12 @@ Definition C16b_new : option node :=
   latest_tree (m1_forest (C16b_m1 ++ [OLvfo 4; OSet [7%N] [70%N]; OSave])) 5.
 Definition C16b_U : list node := with_tree (trees_of_ops C16b_ops) C16b_new.
 
+Definition C16b_expected :=
+  ([true; true; true; true; true; true; false; false], [1; 3; 4; 5], 18%nat, 11%nat, [1; 3; 4; 5],
+   true, @nil bytes, 5,
+   Some ([1; 3; 4], 14%nat, 11%nat, true, @nil bytes, 4, 5%nat, @nil orec, @nil (Z * bytes),
+         @nil bytes, @nil bytes, -1)).
+
 Example C16b_example :
   let st := legacy_history_log sha256 (empty_ldb, []) C16b_ops in
   let db := fst (fst st) in
@@ -230,19 +236,17 @@ Example C16b_example :
              legacy_latest db')
    | None => None
    end) =
-  ([true; true; true; true; true; true; false; false], [1; 3; 4; 5], 18%nat, 11%nat, [1; 3; 4; 5],
-   true, [], 5,
-   Some ([1; 3; 4], 14%nat, 11%nat, true, [], 4, 5%nat, [], [], [], [], -1)).
-Proof. vm_compute. reflexivity. Qed.
+  C16b_expected.
+Proof. vm_cast_no_check (eq_refl C16b_expected). Qed.
 
 (** the hypotheses of the theorems above hold for that history *)
 Local Notation C16b_st := (legacy_history sha256 C16b_ops).
 
 Example C16b_example_inj : hash_inj_on sha256 C16b_U.
-Proof. apply hash_inj_listb_sound. vm_compute. reflexivity. Qed.
+Proof. apply hash_inj_listb_sound. vm_cast_no_check (eq_refl true). Qed.
 
 Example C16b_example_hist : legacy_hist_ok sha256 C16b_U C16b_ops.
-Proof. apply legacy_hist_okb_sound. vm_compute. reflexivity. Qed.
+Proof. apply legacy_hist_okb_sound. vm_cast_no_check (eq_refl true). Qed.
 
 Example C16b_example_trees :
   forall v t, In (v, Some t) (snd C16b_st) ->
@@ -253,7 +257,7 @@ Proof.
   { refine (forest_allb_sound
               (fun t => tree_storableb sha256 t && ldepthb_le (legacy_fuel (fst C16b_st)) t)
               _ _ v t I).
-    vm_compute. reflexivity. }
+    vm_cast_no_check (eq_refl true). }
   apply andb_prop in B. destruct B as [B1 B2].
   split; [apply tree_storableb_sound, B1|apply ldepthb_le_sound, B2].
 Qed.
@@ -263,12 +267,12 @@ Example C16b_example_version :
 Proof.
   apply latest_tree_In; [lia|].
   assert (B : match lookup 4 (snd C16b_st) with Some _ => true | None => false end = true)
-    by (vm_compute; reflexivity).
+    by (vm_cast_no_check (eq_refl true)).
   destruct (lookup 4 (snd C16b_st)) as [t|]; [eauto|discriminate B].
 Qed.
 
 Example C16b_example_on_top : on_top_of C16b_U 4 (latest_tree (snd C16b_st) 4) C16b_new.
-Proof. apply on_top_ofb_sound. vm_compute. reflexivity. Qed.
+Proof. apply on_top_ofb_sound. vm_cast_no_check (eq_refl true). Qed.
 
 (** the theorems instantiated on it: the rollback succeeds, and the final clean-up keeps the
     legacy part of version 5' *)
@@ -276,17 +280,22 @@ Example C16b_example_instance :
   exists dbr,
     rollback_legacy (legacy_fuel (fst C16b_st)) (fst C16b_st) 5 = Some dbr /\
     legacy_closedb sha256 dbr (filter (fun p => fst p <? 5) (snd C16b_st)) = true /\
-    let db' := delete_legacy_versions sha256 dbr 4 (latest_tree (snd C16b_st) 4) C16b_new in
-    legacy_part_kept sha256 db' 4 C16b_new /\ lroots db' = [] /\ lorph db' = [].
+    legacy_part_kept sha256
+      (delete_legacy_versions sha256 dbr 4 (latest_tree (snd C16b_st) 4) C16b_new) 4 C16b_new /\
+    lroots (delete_legacy_versions sha256 dbr 4 (latest_tree (snd C16b_st) 4) C16b_new) = [] /\
+    lorph (delete_legacy_versions sha256 dbr 4 (latest_tree (snd C16b_st) 4) C16b_new) = [].
 Proof.
+  assert (P : 1 <= 5) by lia.
+  pose proof (fun v t I => proj2 (C16b_example_trees v t I)) as Fuel.
   destruct (C16b_rollback_legacy_safe sha256 C16b_U C16b_example_inj C16b_ops
-              (legacy_fuel (fst C16b_st)) 5 C16b_example_hist ltac:(lia) (fun v t I => proj2 (C16b_example_trees v t I)))
+              (legacy_fuel (fst C16b_st)) 5 C16b_example_hist P Fuel)
     as (dbr & E & _ & _ & Cl & _).
   exists dbr. split; [exact E|]. split.
-  - apply Cl. intros v t I. apply filter_In in I. exact (proj1 (C16b_example_trees v t (proj1 I))).
-  - destruct (C16b_delete_legacy_versions_safe_after_rollback sha256 C16b_U C16b_example_inj
+  - exact (Cl (forest_filter_sub (fun _ t => tree_storable sha256 t) _ _
+                 (fun v t I => proj1 (C16b_example_trees v t I)))).
+  - pose proof (C16b_delete_legacy_versions_safe_after_rollback sha256 C16b_U C16b_example_inj
                 C16b_ops (legacy_fuel (fst C16b_st)) 5 dbr 4 (latest_tree (snd C16b_st) 4) C16b_new
-                C16b_example_hist ltac:(lia) (fun v t I => proj2 (C16b_example_trees v t I)) E C16b_example_version
-                C16b_example_on_top) as (K & _ & R & O).
-    cbv zeta. auto.
+                C16b_example_hist P Fuel E C16b_example_version C16b_example_on_top) as K.
+    cbv zeta in K.
+    exact (conj (proj1 K) (proj2 (proj2 K))).
 Qed.
